@@ -236,6 +236,22 @@ impl Walk<'_> {
                 }
             }
             (Doc::Obj(dm), J::Object(vm)) if dm.len() == vm.len() => {
+                // the map view: removing a member by key hands back exactly that member (null included), once
+                for (key, val) in vm.iter() {
+                    let mut view = vm.clone();
+                    let got = deserr::Map::remove(&mut view, key);
+                    let again = deserr::Map::remove(&mut view, key);
+                    if got.as_ref() != Some(val) || again.is_some() || deserr::Map::len(&view) != vm.len() - 1 {
+                        self.findings.push(Finding::new(
+                            "C13/map-view-remove".to_string(),
+                            "Map::remove on the serde_json object view does not hand back the member stored under the key (exactly once)",
+                            json!({"text": self.text, "at": path, "key": key, "member": val, "removed": got, "removed_again": again}),
+                        ));
+                    }
+                }
+                if deserr::Map::remove(&mut vm.clone(), "\u{1}no such key").is_some() {
+                    self.findings.push(Finding::new("C13/map-view-remove".to_string(), "Map::remove invents a member", json!({"text": self.text, "at": path})));
+                }
                 if k1 != K::Map {
                     self.findings.push(Finding::new(format!("C13/classification/Map-as-{k1:?}"), "an object is not a Map", json!({"text": self.text, "at": path})));
                 }
